@@ -15,7 +15,20 @@ pub const K1_SIG: &str = "K1:second-to-last-expected-token-dropped";
 
 /// Terminal names found in the expectation part of a message (the text after the first newline).
 pub fn names_in_message(msg: &str) -> Option<BTreeSet<String>> {
-    let (_, rest) = msg.split_once('\n')?;
+    msg.split_once('\n')?;
+    // the whole message counts ("names nothing outside that set"), except the offending token's own text, which the
+    // message quotes between the first pair of backticks up to the end of that line
+    let rest_owned: String = match (msg.find('`'), msg.find('\n')) {
+        (Some(a), Some(nl)) if a < nl => {
+            let line = &msg[a + 1..nl];
+            match line.rfind('`') {
+                Some(b) => format!("{}{}", &msg[..a], &msg[a + 1 + b + 1..]),
+                None => msg.to_string(),
+            }
+        }
+        _ => msg.to_string(),
+    };
+    let rest: &str = &rest_owned;
     let terminals: BTreeSet<&'static str> = ALL_KINDS.iter().map(|k| k.terminal_name()).collect();
     let cs: Vec<char> = rest.chars().collect();
     let mut out = BTreeSet::new();
@@ -122,7 +135,7 @@ fn error_point_case(rng: &mut Rng) -> String {
             _ => format!("@Ann{}", "n".repeat(n)),
         }
     };
-    const MISCASED: &[&str] = &["Interface", "INTERFACE", "ENUM", "Enum", "Parcelable", "Import", "OneWay", "Package", "PACKAGE", "Const", "TRUE", "False", "IN", "Out", "Void", "Int", "STRING", "list", "MAP"];
+    const MISCASED: &[&str] = &["cons", "conts", "interfac", "interfaces", "enumm", "enu", "packag", "imprt", "imports", "onewa", "parcelabl", "Interface", "INTERFACE", "ENUM", "Enum", "Parcelable", "Import", "OneWay", "Package", "PACKAGE", "Const", "TRUE", "False", "IN", "Out", "Void", "Int", "STRING", "list", "MAP"];
     match rng.below(6) {
         5 => {
             // a keyword in the wrong case (an identifier for the lexer) at the error point
@@ -168,6 +181,9 @@ pub const DIRECTED: &[&str] = &[
     "package p; Interface I {}",
     "Package p;",
     "package p; ENUM E {}",
+    "package p; interface I { String getName() cons; }",
+    "package p; interfac I {}",
+    "package p; interface I { void f() onewa; }",
 ];
 
 pub fn run(ctx: &Ctx) -> i32 {
